@@ -31,7 +31,7 @@ MANIFEST = {
                  'minimum-image oracle; random rotated/triclinic cells as bounded stand-in',
 }
 UNITS = ['unit_states_two_labels', 'unit_integer_remap', 'unit_states_single', 'unit_states_label', 'unit_site_radius', 'unit_from_trajectory']
-BOUNDED = ['bounded_states', 'bounded_lattice_conformance']
+BOUNDED = ['bounded_states', 'bounded_lattice_conformance', 'bounded_purity']
 META = {
     'clauses': {'C02.kd.box': 'P (obligation at search_tree: tree-orientation lattice with the same metric)', 'C02.kd.cutoff': 'P',
                 'C02.remap': 'P', 'C02.scatter': 'P', 'C02.reshape': 'P', 'C02.auto': 'P', 'inner subset of outer': 'P on call arguments + B',
@@ -632,3 +632,10 @@ def bounded_lattice_conformance(tier, seed):
         if np.abs(L2.matrix - tv).max() > 1e-4 or np.abs(L2.metric_tensor - lat.metric_tensor).max() > 1e-8:
             st.violation('from_parameters', f'contract broken for {lat.parameters}', None, None)
     return st.result()
+
+
+# generic purity stand-in (arguments unchanged, second call equal, fresh call equal) over this property's API calls
+from verif.native.purity import make_bounded as _make_purity  # noqa: E402
+from verif.props.purity_reg import REG as _PURITY_REG  # noqa: E402
+PURITY = _PURITY_REG['C02']
+bounded_purity = _make_purity('C02', PURITY)
